@@ -406,6 +406,1091 @@ pub fn schema_new_answer(doc: &Doc) -> String {
     }
 }
 
+// ------------------------------------------------------------------------------------------------
+// Generator of valid schemas
+// ------------------------------------------------------------------------------------------------
+
+const TYPE_NAMES: [&str; 10] = ["Alpha", "beta", "Gamma", "delta", "Eps", "_Zed", "Z9", "a1", "Omega", "mu_2"];
+const SCALARS: [&str; 5] = ["Int", "Float", "String", "Boolean", "ID"];
+const ROOT_NAMES: [&str; 4] = ["RootSchemaQuery", "RootSchemaQuery", "Query", "q_root"];
+
+fn type_of<'a>(doc: &'a Doc, n: &str) -> Option<&'a TypeDef> {
+    doc.iter().find_map(|d| match d {
+        Def::Type(t) if t.name == n => Some(t),
+        _ => None,
+    })
+}
+
+fn types(doc: &Doc) -> Vec<&TypeDef> {
+    doc.iter().filter_map(|d| if let Def::Type(t) = d { Some(t) } else { None }).collect()
+}
+
+fn types_mut(doc: &mut Doc) -> Vec<&mut TypeDef> {
+    doc.iter_mut().filter_map(|d| if let Def::Type(t) = d { Some(t) } else { None }).collect()
+}
+
+fn root_name(doc: &Doc) -> Option<String> {
+    doc.iter().find_map(|d| if let Def::Schema(q) = d { Some(q.clone()) } else { None })
+}
+
+fn random_scalar_ty(rng: &mut Rng, max_depth: usize) -> PTy {
+    let base: &str = SCALARS[rng.below(SCALARS.len())];
+    let mut t = PTy::named(base, rng.chance(1, 2));
+    let d = rng.below(max_depth + 1);
+    for _ in 0..d {
+        t = PTy::list(t, rng.chance(1, 2));
+    }
+    t
+}
+
+/// a value that is valid for `ty` (never an enum); `None` when no constant fits (`ID!`)
+fn value_for(rng: &mut Rng, ty: &PTy) -> Option<FieldValue> {
+    if !ty.non_null() && rng.chance(1, 5) {
+        return Some(FieldValue::Null);
+    }
+    match ty {
+        PTy::List(inner, _) => {
+            let n = rng.below(3);
+            let mut items = vec![];
+            for _ in 0..n {
+                match value_for(rng, inner) {
+                    Some(v) => items.push(v),
+                    None => break,
+                }
+            }
+            Some(FieldValue::List(items.into()))
+        }
+        PTy::Named(n, non_null) => match n.as_str() {
+            "Int" => Some(match rng.below(5) {
+                0 => FieldValue::Int64(0),
+                1 => FieldValue::Int64(-(rng.below(1000) as i64)),
+                2 => FieldValue::Uint64(u64::MAX - rng.below(3) as u64),
+                3 => FieldValue::Int64(i64::MIN),
+                _ => FieldValue::Int64(rng.below(100) as i64),
+            }),
+            "Float" => Some(FieldValue::Float64(*rng.pick(&[1.5, -0.25, 2.0, 1e21, 3.25e-7, 0.1]))),
+            "String" => Some(FieldValue::String(Arc::from(*rng.pick(&["", "abc", "a b", "q\"uote", "é", "line\nbreak"])))),
+            "Boolean" => Some(FieldValue::Boolean(rng.chance(1, 2))),
+            // `ID` admits no constant but `null`
+            _ => if *non_null { None } else { Some(FieldValue::Null) },
+        },
+    }
+}
+
+fn default_for(rng: &mut Rng, ty: &PTy) -> Option<DefaultV> {
+    value_for(rng, ty).map(DefaultV::Val)
+}
+
+/// per-level OR (`or = true`) / AND of the non-null flags of two types of the same shape
+fn combine_flags(a: &PTy, b: &PTy, or: bool) -> PTy {
+    let f = |x: bool, y: bool| if or { x || y } else { x && y };
+    match (a, b) {
+        (PTy::Named(n, x), PTy::Named(_, y)) => PTy::Named(n.clone(), f(*x, *y)),
+        (PTy::List(i, x), PTy::List(j, y)) => PTy::List(Box::new(combine_flags(i, j, or)), f(*x, *y)),
+        _ => a.clone(),
+    }
+}
+
+/// Narrow a property type: turn some nullable levels non-null.
+fn narrow_nullability(rng: &mut Rng, ty: &PTy) -> PTy {
+    match ty {
+        PTy::Named(n, b) => PTy::Named(n.clone(), *b || rng.chance(1, 3)),
+        PTy::List(i, b) => PTy::List(Box::new(narrow_nullability(rng, i)), *b || rng.chance(1, 3)),
+    }
+}
+
+/// Widen a parameter type: turn some non-null levels nullable.
+fn widen_nullability(rng: &mut Rng, ty: &PTy) -> PTy {
+    match ty {
+        PTy::Named(n, b) => PTy::Named(n.clone(), *b && rng.chance(2, 3)),
+        PTy::List(i, b) => PTy::List(Box::new(widen_nullability(rng, i)), *b && rng.chance(2, 3)),
+    }
+}
+
+fn with_base(ty: &PTy, base: &str) -> PTy {
+    match ty {
+        PTy::Named(_, b) => PTy::Named(base.to_string(), *b),
+        PTy::List(i, b) => PTy::List(Box::new(with_base(i, base)), *b),
+    }
+}
+
+pub struct GenOpts {
+    /// guarantee an interface chain `I2 implements I1`, an implementer of both, a parameterised
+    /// inherited edge and a parameterised edge with defaults (so that every mutation applies)
+    pub rich: bool,
+}
+
+/// A valid schema: `n` vertex types besides the root, some of them interfaces with transitively
+/// closed `implements`, own and inherited (possibly narrowed) fields, edges, parameters, defaults.
+pub fn gen_valid(rng: &mut Rng, opts: &GenOpts) -> Doc {
+    let n = if opts.rich { 3 + rng.below(4) } else { 2 + rng.below(5) };
+    let root = rng.pick(&ROOT_NAMES).to_string();
+    let mut pool: Vec<&str> = TYPE_NAMES.to_vec();
+    let mut names = vec![];
+    for _ in 0..n {
+        names.push(pool.remove(rng.below(pool.len())).to_string());
+    }
+    // kinds: interfaces first in `order` so that implements only points backwards (acyclic)
+    let n_if = if opts.rich { 2 + rng.below(n - 2) } else { rng.below(n) };
+    let is_if: Vec<bool> = (0..n).map(|k| k < n_if).collect();
+    // transitively closed implements sets
+    let mut impls: Vec<BTreeSet<usize>> = vec![BTreeSet::new(); n];
+    for k in 0..n {
+        let mut set = BTreeSet::new();
+        for j in 0..k.min(n_if) {
+            let force = opts.rich && ((k == 1 && j == 0) || (k == n - 1 && j == 1));
+            if force || rng.chance(1, 3) {
+                set.insert(j);
+                set.extend(impls[j].iter().copied());
+            }
+        }
+        impls[k] = set;
+    }
+    // own fields per type; names carry the owner's index so unrelated types never clash
+    let mut own: Vec<Vec<Field>> = vec![];
+    for k in 0..n {
+        let mut fields = vec![];
+        let nf = if opts.rich && k < 2 { 2 + rng.below(2) } else { rng.below(4) };
+        for x in 0..nf {
+            let fname = format!("{}{}_{}", ["f", "g", "edge", "p"][rng.below(4)], k, x);
+            let force_param_edge = opts.rich && k == 0 && x == 0;
+            if !force_param_edge && rng.chance(1, 2) {
+                fields.push(Field { name: fname, ty: random_scalar_ty(rng, 3), args: vec![] });
+            } else {
+                let target = rng.below(n);
+                let mut ty = PTy::named(&names[target], rng.chance(1, 2));
+                if rng.chance(1, 2) {
+                    ty = PTy::list(ty, rng.chance(1, 2));
+                }
+                let mut args = vec![];
+                let na = if force_param_edge { 1 + rng.below(2) } else if rng.chance(1, 2) { rng.below(3) } else { 0 };
+                for y in 0..na {
+                    let aty = random_scalar_ty(rng, 2);
+                    let default = if rng.chance(1, 2) { default_for(rng, &aty) } else { None };
+                    args.push(Arg { name: format!("{}{}", ["x", "y", "min", "_p"][rng.below(4)], y), ty: aty, default });
+                }
+                fields.push(Field { name: fname, ty, args });
+            }
+        }
+        own.push(fields);
+    }
+    // subtypes (for narrowing edge targets): s is a subtype of t when t ∈ impls[s] or s == t
+    let subtypes_of = |t: usize| -> Vec<usize> { (0..n).filter(|s| *s == t || impls[*s].contains(&t)).collect() };
+    let mut defs: Vec<Def> = vec![];
+    let mut full_fields: Vec<Vec<Field>> = vec![vec![]; n];
+    for k in 0..n {
+        let mut fields: Vec<Field> = vec![];
+        // inherited: every field of every implemented interface.  A field reaching this type along
+        // several paths must narrow *every* parent's version: non-null flags are OR-ed, parameter
+        // flags AND-ed (contravariant); edge targets are only narrowed in object types (leaves), so
+        // all interface versions of a field agree on the target.
+        let mut merged: Vec<Field> = vec![];
+        for j in impls[k].iter() {
+            for pf in &full_fields[*j] {
+                match merged.iter_mut().find(|f| f.name == pf.name) {
+                    None => merged.push(pf.clone()),
+                    Some(f) => {
+                        f.ty = combine_flags(&f.ty, &pf.ty, true);
+                        for a in f.args.iter_mut() {
+                            if let Some(pa) = pf.args.iter().find(|pa| pa.name == a.name) {
+                                a.ty = combine_flags(&a.ty, &pa.ty, false);
+                            }
+                        }
+                    }
+                }
+            }
+        }
+        for pf in merged {
+            let mut f = pf.clone();
+            let base_is_scalar = SCALARS.contains(&pf.ty.base());
+            if rng.chance(1, 2) {
+                f.ty = narrow_nullability(rng, &f.ty);
+            }
+            if !base_is_scalar && !is_if[k] && rng.chance(1, 2) {
+                let tidx = names.iter().position(|x| x == pf.ty.base()).unwrap();
+                let subs = subtypes_of(tidx);
+                f.ty = with_base(&f.ty, &names[*rng.pick(&subs)]);
+            }
+            for a in f.args.iter_mut() {
+                if rng.chance(1, 2) {
+                    a.ty = widen_nullability(rng, &a.ty);
+                }
+                // defaults are per declaration: drop or regenerate
+                a.default = match rng.below(3) {
+                    0 => None,
+                    _ => default_for(rng, &a.ty),
+                };
+            }
+            if rng.chance(1, 4) {
+                f.args.reverse();
+            }
+            fields.push(f);
+        }
+        fields.extend(own[k].iter().cloned());
+        if rng.chance(1, 3) {
+            fields.reverse();
+        }
+        full_fields[k] = fields.clone();
+        let mut implements: Vec<String> = impls[k].iter().map(|j| names[*j].clone()).collect();
+        if rng.chance(1, 2) {
+            implements.reverse();
+        }
+        defs.push(Def::Type(TypeDef { name: names[k].clone(), is_interface: is_if[k], implements, fields }));
+    }
+    // root type: entry points
+    let mut root_fields = vec![];
+    for k in 0..n {
+        if k == 0 || rng.chance(2, 3) {
+            let mut ty = PTy::named(&names[k], rng.chance(1, 2));
+            if rng.chance(1, 2) {
+                ty = PTy::list(ty, rng.chance(1, 2));
+            }
+            let mut args = vec![];
+            if rng.chance(1, 3) {
+                let aty = random_scalar_ty(rng, 1);
+                let default = if rng.chance(1, 2) { default_for(rng, &aty) } else { None };
+                args.push(Arg { name: "min".into(), ty: aty, default });
+            }
+            root_fields.push(Field { name: format!("{}{}", ["", "All", "get_"][rng.below(3)], names[k]), ty, args });
+        }
+    }
+    defs.push(Def::Type(TypeDef { name: root.clone(), is_interface: false, implements: vec![], fields: root_fields }));
+    // shuffle type definitions
+    for i in (1..defs.len()).rev() {
+        defs.swap(i, rng.below(i + 1));
+    }
+    let mut doc: Doc = vec![];
+    let mut extra: Vec<Def> = vec![];
+    if rng.chance(4, 5) {
+        for (n, _) in PRELUDE {
+            extra.push(Def::Directive(n.to_string()));
+        }
+    }
+    if rng.chance(1, 3) {
+        extra.push(Def::Directive("custom".into()));
+    }
+    if rng.chance(1, 3) {
+        extra.push(Def::Scalar("Date".into()));
+        if rng.chance(1, 2) {
+            // a custom scalar may share its name with a vertex type: different tables
+            extra.push(Def::Scalar(names[0].clone()));
+        }
+    }
+    // schema block first (as in the repo's schemas), last, or in the middle
+    match rng.below(4) {
+        0 => {
+            doc.extend(extra);
+            doc.extend(defs);
+            doc.push(Def::Schema(root));
+        }
+        1 => {
+            doc.extend(defs);
+            doc.push(Def::Schema(root));
+            doc.extend(extra);
+        }
+        _ => {
+            doc.push(Def::Schema(root));
+            doc.extend(extra);
+            doc.extend(defs);
+        }
+    }
+    doc
+}
+
+// ------------------------------------------------------------------------------------------------
+// Independent rule checker (written from the documented rules, not from the Rust code)
+// ------------------------------------------------------------------------------------------------
+
+fn ancestors(doc: &Doc, t: &str) -> BTreeSet<String> {
+    // transitive closure of `implements` over defined types (cycle-safe)
+    let mut out = BTreeSet::new();
+    let mut todo: Vec<String> = type_of(doc, t).map(|d| d.implements.clone()).unwrap_or_default();
+    while let Some(x) = todo.pop() {
+        if out.insert(x.clone()) {
+            if let Some(d) = type_of(doc, &x) {
+                todo.extend(d.implements.iter().cloned());
+            }
+        }
+    }
+    out
+}
+
+fn fits(ty: &PTy, v: &FieldValue) -> bool {
+    match (ty, v) {
+        (_, FieldValue::Null) => !ty.non_null(),
+        (PTy::Named(n, _), FieldValue::Int64(_) | FieldValue::Uint64(_)) => n == "Int",
+        (PTy::Named(n, _), FieldValue::Float64(_)) => n == "Float",
+        (PTy::Named(n, _), FieldValue::String(_)) => n == "String",
+        (PTy::Named(n, _), FieldValue::Boolean(_)) => n == "Boolean",
+        (PTy::List(inner, _), FieldValue::List(l)) => l.iter().all(|x| fits(inner, x)),
+        _ => false,
+    }
+}
+
+/// parent non-null ⇒ child non-null at every level, same list structure; returns the two base names
+fn narrowed_shape<'a>(parent: &'a PTy, child: &'a PTy) -> Option<(&'a str, &'a str)> {
+    if parent.non_null() && !child.non_null() {
+        return None;
+    }
+    match (parent, child) {
+        (PTy::Named(p, _), PTy::Named(c, _)) => Some((p, c)),
+        (PTy::List(p, _), PTy::List(c, _)) => narrowed_shape(p, c),
+        _ => None,
+    }
+}
+
+/// The documented rules that `doc` violates (empty = valid schema).
+pub fn rule_violations(doc: &Doc) -> BTreeSet<&'static str> {
+    let mut bad = BTreeSet::new();
+    let ts = types(doc);
+    let blocks: Vec<&String> = doc.iter().filter_map(|d| if let Def::Schema(q) = d { Some(q) } else { None }).collect();
+    let root = if blocks.len() == 1 { Some(blocks[0].clone()) } else { None };
+    match &root {
+        None => {
+            bad.insert("one-schema-block");
+        }
+        Some(q) => match type_of(doc, q) {
+            Some(t) if !t.is_interface => {}
+            _ => {
+                bad.insert("query-type-is-defined-object");
+            }
+        },
+    }
+    let mut seen = BTreeSet::new();
+    for t in &ts {
+        if !seen.insert(&t.name) {
+            bad.insert("types-distinct");
+        }
+        let mut fs = BTreeSet::new();
+        for f in &t.fields {
+            if !fs.insert(&f.name) {
+                bad.insert("fields-distinct");
+            }
+        }
+    }
+    let mut dn = BTreeSet::new();
+    let mut sn = BTreeSet::new();
+    for d in doc {
+        match d {
+            Def::Directive(n) => {
+                if !dn.insert(n) {
+                    bad.insert("directives-distinct");
+                }
+            }
+            Def::Scalar(n) => {
+                if !sn.insert(n) {
+                    bad.insert("scalars-distinct");
+                }
+                if SCALARS.contains(&n.as_str()) {
+                    bad.insert("builtin-not-redefined");
+                }
+            }
+            Def::Type(t) => {
+                if SCALARS.contains(&t.name.as_str()) {
+                    bad.insert("builtin-not-redefined");
+                }
+            }
+            _ => {}
+        }
+    }
+    let is_vertex = |n: &str| ts.iter().any(|t| t.name == n);
+    for t in &ts {
+        if t.name.starts_with("__") {
+            bad.insert("no-reserved-names");
+        }
+        let anc = ancestors(doc, &t.name);
+        if anc.contains(&t.name) {
+            bad.insert("no-implementation-cycles");
+        }
+        for i in &t.implements {
+            match type_of(doc, i) {
+                None => {
+                    bad.insert("implemented-types-exist");
+                }
+                Some(d) => {
+                    if !d.is_interface {
+                        bad.insert("implemented-types-are-interfaces");
+                    }
+                }
+            }
+        }
+        for a in &anc {
+            if !t.implements.contains(a) {
+                bad.insert("implements-transitively");
+            }
+            let Some(d) = type_of(doc, a) else { continue };
+            for pf in &d.fields {
+                let Some(f) = t.fields.iter().find(|f| f.name == pf.name) else {
+                    bad.insert("inherited-fields-present");
+                    continue;
+                };
+                match narrowed_shape(&pf.ty, &f.ty) {
+                    None => {
+                        bad.insert("inherited-fields-only-narrowed");
+                    }
+                    Some((p, c)) => {
+                        let ok = p == c || (is_vertex(p) && is_vertex(c) && ancestors(doc, c).contains(p));
+                        if !ok {
+                            bad.insert("inherited-fields-only-narrowed");
+                        }
+                    }
+                }
+                let pn: BTreeSet<&String> = pf.args.iter().map(|a| &a.name).collect();
+                let cn: BTreeSet<&String> = f.args.iter().map(|a| &a.name).collect();
+                if pn != cn {
+                    bad.insert("inherited-parameters-same-names");
+                }
+                for ca in &f.args {
+                    for pa in pf.args.iter().filter(|pa| pa.name == ca.name) {
+                        // contravariant: the parent's parameter type is a narrowing of the child's
+                        match narrowed_shape(&ca.ty, &pa.ty) {
+                            Some((c, p)) if c == p => {}
+                            _ => {
+                                bad.insert("inherited-parameters-only-widened");
+                            }
+                        }
+                    }
+                }
+            }
+        }
+        for f in &t.fields {
+            if f.name.starts_with("__") {
+                bad.insert("no-reserved-names");
+            }
+            let base = f.ty.base();
+            if SCALARS.contains(&base) {
+                if !f.args.is_empty() {
+                    bad.insert("properties-take-no-parameters");
+                }
+                if Some(&t.name) == root.as_ref() {
+                    bad.insert("root-fields-are-edges");
+                }
+            } else if is_vertex(base) {
+                if Some(base) == root.as_deref() {
+                    bad.insert("no-edges-into-root");
+                }
+                if f.ty.depth() > 1 {
+                    bad.insert("edge-types-not-nested-lists");
+                }
+                for a in &f.args {
+                    match &a.default {
+                        None => {}
+                        Some(DefaultV::Bad) => {
+                            bad.insert("defaults-fit");
+                        }
+                        Some(DefaultV::Val(v)) => {
+                            if !fits(&a.ty, v) {
+                                bad.insert("defaults-fit");
+                            }
+                        }
+                    }
+                }
+            } else {
+                bad.insert("field-types-known");
+            }
+        }
+        // ambiguous origins: the types among `t` and its ancestors that introduce field `f`
+        for f in &t.fields {
+            let mut origins = BTreeSet::new();
+            let mut cands: Vec<String> = anc.iter().cloned().collect();
+            cands.push(t.name.clone());
+            for c in cands {
+                let Some(d) = type_of(doc, &c) else { continue };
+                if !d.fields.iter().any(|x| x.name == f.name) {
+                    continue;
+                }
+                let introduced = !ancestors(doc, &c)
+                    .iter()
+                    .any(|a| type_of(doc, a).is_some_and(|ad| ad.fields.iter().any(|x| x.name == f.name)));
+                if introduced {
+                    origins.insert(c);
+                }
+            }
+            if origins.len() > 1 {
+                bad.insert("no-ambiguous-field-origins");
+            }
+        }
+    }
+    bad
+}
+
+/// Features outside the documented rules on which the accept ⇔ valid oracle is silent.
+fn undocumented(doc: &Doc) -> Option<&'static str> {
+    for d in doc {
+        match d {
+            Def::Unsupported(..) => return Some("unsupported-definition"),
+            Def::Type(t) => {
+                for f in &t.fields {
+                    let mut an = BTreeSet::new();
+                    for a in &f.args {
+                        if !an.insert(&a.name) {
+                            return Some("duplicate-parameter-name");
+                        }
+                    }
+                }
+            }
+            _ => {}
+        }
+    }
+    None
+}
+
+// ------------------------------------------------------------------------------------------------
+// Malformed stream: mutations of a valid schema
+// ------------------------------------------------------------------------------------------------
+
+fn deep(base: &str, levels: usize) -> PTy {
+    let mut t = PTy::named(base, false);
+    for _ in 0..levels {
+        t = PTy::list(t, false);
+    }
+    t
+}
+
+pub const MUTATIONS: [&str; 44] = [
+    "missing-interface",
+    "implements-object",
+    "non-transitive",
+    "missing-inherited-field",
+    "widen-nullability",
+    "change-base",
+    "change-depth",
+    "edge-to-supertype",
+    "drop-parameter",
+    "extra-parameter",
+    "narrow-parameter",
+    "change-parameter-base",
+    "unknown-field-type",
+    "custom-scalar-field",
+    "reserved-type-name",
+    "reserved-field-name",
+    "edge-into-root",
+    "property-with-parameters",
+    "ill-typed-default",
+    "null-default-non-null",
+    "object-default",
+    "list-of-list-edge",
+    "root-property",
+    "self-cycle",
+    "two-cycle",
+    "three-cycle",
+    "ambiguous-origin",
+    "diamond-origin",
+    "dup-schema-block",
+    "no-schema-block",
+    "query-type-undefined",
+    "query-type-interface",
+    "redefine-builtin-scalar",
+    "redefine-builtin-type",
+    "dup-directive",
+    "dup-scalar",
+    "deep-field-type",
+    "deep-parameter-type",
+    "enum-default",
+    "enum-default-shadowed",
+    "dup-type",
+    "dup-field",
+    "dup-implements",
+    "dup-parameter",
+];
+
+/// Apply mutation `m`; `false` when the document offers no place for it.
+pub fn mutate(doc: &mut Doc, m: &str, rng: &mut Rng) -> bool {
+    let root = root_name(doc);
+    let n_types = types(doc).len();
+    if n_types == 0 {
+        return false;
+    }
+    // (type index among types, field index) of fields satisfying a predicate
+    let pick_field = |doc: &Doc, rng: &mut Rng, pred: &dyn Fn(&TypeDef, &Field) -> bool| -> Option<(usize, usize)> {
+        let mut c = vec![];
+        for (ti, t) in types(doc).iter().enumerate() {
+            for (fi, f) in t.fields.iter().enumerate() {
+                if pred(t, f) {
+                    c.push((ti, fi));
+                }
+            }
+        }
+        if c.is_empty() { None } else { Some(*rng.pick(&c)) }
+    };
+    // inherited fields: (type, field) where some implemented type has the field too
+    let snapshot = doc.clone();
+    let inherited = |t: &TypeDef, f: &Field| {
+        t.implements.iter().any(|i| type_of(&snapshot, i).is_some_and(|d| d.fields.iter().any(|x| x.name == f.name)))
+    };
+    let is_scalar = |f: &Field| SCALARS.contains(&f.ty.base());
+    let non_root = |t: &TypeDef| Some(&t.name) != root.as_ref();
+    match m {
+        "missing-interface" => {
+            let k = rng.below(n_types);
+            types_mut(doc)[k].implements.push("Nope".into());
+            true
+        }
+        "implements-object" => {
+            let objs: Vec<String> = types(doc).iter().filter(|t| !t.is_interface && non_root(t)).map(|t| t.name.clone()).collect();
+            if objs.is_empty() {
+                return false;
+            }
+            let o = rng.pick(&objs).clone();
+            let cands: Vec<usize> = types(doc).iter().enumerate().filter(|(_, t)| t.name != o && non_root(t)).map(|x| x.0).collect();
+            if cands.is_empty() {
+                return false;
+            }
+            let k = *rng.pick(&cands);
+            types_mut(doc)[k].implements.push(o);
+            true
+        }
+        "non-transitive" => {
+            // some t implements i, i implements j: drop j from t
+            let mut c = vec![];
+            for (ti, t) in types(doc).iter().enumerate() {
+                for i in &t.implements {
+                    if let Some(d) = type_of(doc, i) {
+                        for j in &d.implements {
+                            if t.implements.contains(j) {
+                                c.push((ti, j.clone()));
+                            }
+                        }
+                    }
+                }
+            }
+            if c.is_empty() {
+                return false;
+            }
+            let (ti, j) = rng.pick(&c).clone();
+            types_mut(doc)[ti].implements.retain(|x| *x != j);
+            true
+        }
+        "missing-inherited-field" => match pick_field(doc, rng, &|t, f| inherited(t, f)) {
+            Some((ti, fi)) => {
+                types_mut(doc)[ti].fields.remove(fi);
+                true
+            }
+            None => false,
+        },
+        "widen-nullability" => {
+            // make the parent's version strictly more non-null than the child's at the top level
+            match pick_field(doc, rng, &|t, f| inherited(t, f)) {
+                Some((ti, fi)) => {
+                    let (tname, fname) = {
+                        let t = &types(doc)[ti];
+                        (t.name.clone(), t.fields[fi].name.clone())
+                    };
+                    let parents: Vec<String> = type_of(doc, &tname).unwrap().implements.clone();
+                    {
+                        let f = &mut types_mut(doc)[ti].fields[fi];
+                        f.ty = match &f.ty {
+                            PTy::Named(n, _) => PTy::Named(n.clone(), false),
+                            PTy::List(i, _) => PTy::List(i.clone(), false),
+                        };
+                    }
+                    for t in types_mut(doc) {
+                        if parents.contains(&t.name) {
+                            for f in t.fields.iter_mut().filter(|f| f.name == fname) {
+                                f.ty = match &f.ty {
+                                    PTy::Named(n, _) => PTy::Named(n.clone(), true),
+                                    PTy::List(i, _) => PTy::List(i.clone(), true),
+                                };
+                            }
+                        }
+                    }
+                    true
+                }
+                None => false,
+            }
+        }
+        "change-base" => match pick_field(doc, rng, &|t, f| inherited(t, f) && is_scalar(f)) {
+            Some((ti, fi)) => {
+                let f = &mut types_mut(doc)[ti].fields[fi];
+                let nb = if f.ty.base() == "Int" { "String" } else { "Int" };
+                f.ty = with_base(&f.ty, nb);
+                true
+            }
+            None => false,
+        },
+        "change-depth" => match pick_field(doc, rng, &|t, f| inherited(t, f) && is_scalar(f)) {
+            Some((ti, fi)) => {
+                let f = &mut types_mut(doc)[ti].fields[fi];
+                f.ty = match &f.ty {
+                    PTy::List(i, _) if rng.chance(1, 2) => (**i).clone(),
+                    other => PTy::list(other.clone(), other.non_null()),
+                };
+                true
+            }
+            None => false,
+        },
+        "edge-to-supertype" => {
+            // child edge points to an unrelated / super type of the parent's target
+            match pick_field(doc, rng, &|t, f| inherited(t, f) && !is_scalar(f)) {
+                Some((ti, fi)) => {
+                    let cur = types(doc)[ti].fields[fi].ty.base().to_string();
+                    let anc = ancestors(doc, &cur);
+                    let others: Vec<String> = types(doc)
+                        .iter()
+                        .filter(|t| t.name != cur && non_root(t))
+                        .map(|t| t.name.clone())
+                        .collect();
+                    let _ = anc;
+                    if others.is_empty() {
+                        return false;
+                    }
+                    let nb = rng.pick(&others).clone();
+                    let f = &mut types_mut(doc)[ti].fields[fi];
+                    f.ty = with_base(&f.ty, &nb);
+                    true
+                }
+                None => false,
+            }
+        }
+        "drop-parameter" => match pick_field(doc, rng, &|t, f| inherited(t, f) && !f.args.is_empty()) {
+            Some((ti, fi)) => {
+                let f = &mut types_mut(doc)[ti].fields[fi];
+                let k = rng.below(f.args.len());
+                f.args.remove(k);
+                true
+            }
+            None => false,
+        },
+        "extra-parameter" => match pick_field(doc, rng, &|t, f| inherited(t, f) && !is_scalar(f)) {
+            Some((ti, fi)) => {
+                let f = &mut types_mut(doc)[ti].fields[fi];
+                f.args.push(Arg { name: "extra".into(), ty: PTy::named("Int", false), default: None });
+                true
+            }
+            None => false,
+        },
+        "narrow-parameter" => {
+            // child parameter non-null where the parent's is nullable
+            match pick_field(doc, rng, &|t, f| inherited(t, f) && !f.args.is_empty()) {
+                Some((ti, fi)) => {
+                    let (tname, fname, aname) = {
+                        let t = &types(doc)[ti];
+                        let f = &t.fields[fi];
+                        (t.name.clone(), f.name.clone(), f.args[rng.below(f.args.len())].name.clone())
+                    };
+                    let parents = type_of(doc, &tname).unwrap().implements.clone();
+                    for t in types_mut(doc) {
+                        let is_child = t.name == tname;
+                        if is_child || parents.contains(&t.name) {
+                            for f in t.fields.iter_mut().filter(|f| f.name == fname) {
+                                for a in f.args.iter_mut().filter(|a| a.name == aname) {
+                                    a.ty = match &a.ty {
+                                        PTy::Named(n, _) => PTy::Named(n.clone(), is_child),
+                                        PTy::List(i, _) => PTy::List(i.clone(), is_child),
+                                    };
+                                    if is_child {
+                                        a.default = None;
+                                    }
+                                }
+                            }
+                        }
+                    }
+                    true
+                }
+                None => false,
+            }
+        }
+        "change-parameter-base" => match pick_field(doc, rng, &|t, f| inherited(t, f) && !f.args.is_empty()) {
+            Some((ti, fi)) => {
+                let f = &mut types_mut(doc)[ti].fields[fi];
+                let k = rng.below(f.args.len());
+                let nb = if f.args[k].ty.base() == "Int" { "String" } else { "Int" };
+                f.args[k].ty = with_base(&f.args[k].ty, nb);
+                f.args[k].default = None;
+                true
+            }
+            None => false,
+        },
+        "unknown-field-type" | "custom-scalar-field" => {
+            let k = rng.below(n_types);
+            let base = if m == "unknown-field-type" {
+                "Nope"
+            } else {
+                doc.push(Def::Scalar("Custom".into()));
+                "Custom"
+            };
+            let ty = if rng.chance(1, 2) { PTy::named(base, rng.chance(1, 2)) } else { PTy::list(PTy::named(base, true), false) };
+            types_mut(doc)[k].fields.push(Field { name: "mystery".into(), ty, args: vec![] });
+            true
+        }
+        "reserved-type-name" => {
+            doc.push(Def::Type(TypeDef {
+                name: "__Hidden".into(),
+                is_interface: rng.chance(1, 2),
+                implements: vec![],
+                fields: vec![Field { name: "x".into(), ty: PTy::named("Int", false), args: vec![] }],
+            }));
+            true
+        }
+        "reserved-field-name" => {
+            let k = rng.below(n_types);
+            let target = types(doc).iter().find(|t| non_root(t)).map(|t| t.name.clone());
+            let ty = match (rng.chance(1, 2), target) {
+                (true, Some(t)) => PTy::named(&t, false),
+                _ => PTy::named("Int", false),
+            };
+            types_mut(doc)[k].fields.push(Field { name: "__secret".into(), ty, args: vec![] });
+            true
+        }
+        "edge-into-root" => {
+            let Some(r) = root.clone() else { return false };
+            let k = rng.below(n_types);
+            let ty = if rng.chance(1, 2) { PTy::named(&r, rng.chance(1, 2)) } else { PTy::list(PTy::named(&r, true), false) };
+            let args = if rng.chance(1, 2) {
+                vec![Arg { name: "x".into(), ty: PTy::named("Int", true), default: Some(DefaultV::Val(FieldValue::Null)) }]
+            } else {
+                vec![]
+            };
+            types_mut(doc)[k].fields.push(Field { name: "back".into(), ty, args });
+            true
+        }
+        "property-with-parameters" => {
+            let cands: Vec<usize> = types(doc).iter().enumerate().filter(|(_, t)| non_root(t)).map(|x| x.0).collect();
+            if cands.is_empty() {
+                return false;
+            }
+            let k = *rng.pick(&cands);
+            let args = vec![
+                Arg { name: "x".into(), ty: PTy::named("Int", false), default: None },
+                Arg { name: "y".into(), ty: PTy::named("String", true), default: Some(DefaultV::Val(FieldValue::Int64(3))) },
+            ];
+            types_mut(doc)[k].fields.push(Field { name: "prop".into(), ty: random_scalar_ty(rng, 2), args });
+            true
+        }
+        "ill-typed-default" | "null-default-non-null" | "object-default" | "enum-default" | "enum-default-shadowed"
+        | "deep-parameter-type" => {
+            let target = types(doc).iter().find(|t| non_root(t)).map(|t| t.name.clone());
+            let Some(target) = target else { return false };
+            let k = rng.below(n_types);
+            let (ty, default) = match m {
+                "ill-typed-default" => match rng.below(5) {
+                    0 => (PTy::named("Int", false), DefaultV::Val(FieldValue::String("x".into()))),
+                    1 => (PTy::named("Float", false), DefaultV::Val(FieldValue::Int64(1))),
+                    2 => (PTy::list(PTy::named("Int", true), false), DefaultV::Val(FieldValue::List(vec![FieldValue::Int64(1), FieldValue::Null].into()))),
+                    3 => (PTy::named("ID", false), DefaultV::Val(FieldValue::String("id".into()))),
+                    _ => (PTy::named("String", true), DefaultV::Val(FieldValue::List(vec![].into()))),
+                },
+                "null-default-non-null" => (PTy::named("Int", true), DefaultV::Val(FieldValue::Null)),
+                "object-default" => (PTy::named("Int", false), DefaultV::Bad),
+                "enum-default" => {
+                    if rng.chance(1, 2) {
+                        (PTy::named("Int", false), DefaultV::Val(FieldValue::Enum("FOO".into())))
+                    } else {
+                        (
+                            PTy::list(PTy::named("Int", false), false),
+                            DefaultV::Val(FieldValue::List(vec![FieldValue::Int64(1), FieldValue::Enum("FOO".into())].into())),
+                        )
+                    }
+                }
+                "enum-default-shadowed" => {
+                    // the enum constant is never inspected: an earlier element / the shape already fails
+                    if rng.chance(1, 2) {
+                        (
+                            PTy::list(PTy::named("Int", false), false),
+                            DefaultV::Val(FieldValue::List(vec![FieldValue::Float64(1.5), FieldValue::Enum("FOO".into())].into())),
+                        )
+                    } else {
+                        (PTy::named("Int", false), DefaultV::Val(FieldValue::List(vec![FieldValue::Enum("FOO".into())].into())))
+                    }
+                }
+                _ => (deep("Int", 31), DefaultV::Val(FieldValue::Null)),
+            };
+            let with_default = m != "deep-parameter-type" || rng.chance(1, 2);
+            types_mut(doc)[k].fields.push(Field {
+                name: "withDefault".into(),
+                ty: PTy::named(&target, false),
+                args: vec![Arg { name: "p".into(), ty, default: if with_default { Some(default) } else { None } }],
+            });
+            true
+        }
+        "list-of-list-edge" => {
+            let target = types(doc).iter().find(|t| non_root(t)).map(|t| t.name.clone());
+            let Some(target) = target else { return false };
+            let k = rng.below(n_types);
+            let lv = 2 + rng.below(2);
+            let mut ty = PTy::named(&target, true);
+            for _ in 0..lv {
+                ty = PTy::list(ty, rng.chance(1, 2));
+            }
+            types_mut(doc)[k].fields.push(Field { name: "nested".into(), ty, args: vec![] });
+            true
+        }
+        "root-property" => {
+            let Some(r) = root.clone() else { return false };
+            for t in types_mut(doc) {
+                if t.name == r {
+                    t.fields.push(Field { name: "count".into(), ty: random_scalar_ty(rng, 1), args: vec![] });
+                    return true;
+                }
+            }
+            false
+        }
+        "self-cycle" | "two-cycle" | "three-cycle" => {
+            let len = match m {
+                "self-cycle" => 1,
+                "two-cycle" => 2,
+                _ => 3,
+            };
+            let names: Vec<String> = (0..len).map(|k| format!("Cyc{k}")).collect();
+            for k in 0..len {
+                let mut implements = vec![names[(k + 1) % len].clone()];
+                if len == 3 {
+                    // keep the transitive-implementation rule satisfied so that only the cycle is wrong
+                    implements.push(names[(k + 2) % len].clone());
+                }
+                doc.push(Def::Type(TypeDef {
+                    name: names[k].clone(),
+                    is_interface: true,
+                    implements,
+                    fields: vec![Field { name: "cyc".into(), ty: PTy::named("Int", false), args: vec![] }],
+                }));
+            }
+            true
+        }
+        "ambiguous-origin" | "diamond-origin" => {
+            // two interfaces with the same field; diamond: both inherit it from a common base (fine)
+            let diamond = m == "diamond-origin";
+            let f = Field { name: "shared".into(), ty: PTy::named("String", false), args: vec![] };
+            if diamond {
+                doc.push(Def::Type(TypeDef { name: "DBase".into(), is_interface: true, implements: vec![], fields: vec![f.clone()] }));
+            }
+            let base_impl: Vec<String> = if diamond { vec!["DBase".into()] } else { vec![] };
+            doc.push(Def::Type(TypeDef { name: "DLeft".into(), is_interface: true, implements: base_impl.clone(), fields: vec![f.clone()] }));
+            doc.push(Def::Type(TypeDef { name: "DRight".into(), is_interface: true, implements: base_impl.clone(), fields: vec![f.clone()] }));
+            let mut implements = vec!["DLeft".to_string(), "DRight".to_string()];
+            implements.extend(base_impl);
+            doc.push(Def::Type(TypeDef { name: "DBoth".into(), is_interface: rng.chance(1, 2), implements, fields: vec![f] }));
+            true
+        }
+        "dup-schema-block" => {
+            let Some(r) = root.clone() else { return false };
+            let at = rng.below(doc.len() + 1);
+            doc.insert(at, Def::Schema(r));
+            true
+        }
+        "no-schema-block" => {
+            doc.retain(|d| !matches!(d, Def::Schema(_)));
+            true
+        }
+        "query-type-undefined" => {
+            for d in doc.iter_mut() {
+                if let Def::Schema(q) = d {
+                    *q = "Missing".into();
+                }
+            }
+            if rng.chance(1, 2) {
+                doc.push(Def::Scalar("Missing".into()));
+            }
+            true
+        }
+        "query-type-interface" => {
+            let Some(r) = root.clone() else { return false };
+            for t in types_mut(doc) {
+                if t.name == r {
+                    t.is_interface = true;
+                }
+            }
+            true
+        }
+        "redefine-builtin-scalar" => {
+            let at = rng.below(doc.len() + 1);
+            doc.insert(at, Def::Scalar(rng.pick(&SCALARS).to_string()));
+            true
+        }
+        "redefine-builtin-type" => {
+            let at = rng.below(doc.len() + 1);
+            doc.insert(
+                at,
+                Def::Type(TypeDef {
+                    name: rng.pick(&SCALARS).to_string(),
+                    is_interface: rng.chance(1, 2),
+                    implements: vec![],
+                    fields: vec![Field { name: "x".into(), ty: PTy::named("Int", false), args: vec![] }],
+                }),
+            );
+            true
+        }
+        "dup-directive" => {
+            let n = doc.iter().find_map(|d| if let Def::Directive(n) = d { Some(n.clone()) } else { None }).unwrap_or("custom".into());
+            if !doc.iter().any(|d| matches!(d, Def::Directive(_))) {
+                doc.push(Def::Directive(n.clone()));
+            }
+            let at = rng.below(doc.len() + 1);
+            doc.insert(at, Def::Directive(n));
+            true
+        }
+        "dup-scalar" => {
+            doc.push(Def::Scalar("Twice".into()));
+            let at = rng.below(doc.len() + 1);
+            doc.insert(at, Def::Scalar("Twice".into()));
+            true
+        }
+        "deep-field-type" => {
+            let k = rng.below(n_types);
+            let lv = *rng.pick(&[30usize, 31, 31, 32, 40]);
+            types_mut(doc)[k].fields.push(Field { name: "deep".into(), ty: deep("Int", lv), args: vec![] });
+            true
+        }
+        "dup-type" => {
+            let k = rng.below(n_types);
+            let mut t = types(doc)[k].clone();
+            if rng.chance(1, 2) {
+                t.is_interface = !t.is_interface;
+                t.fields.truncate(1);
+            }
+            let at = rng.below(doc.len() + 1);
+            doc.insert(at, Def::Type(t));
+            true
+        }
+        "dup-field" => match pick_field(doc, rng, &|_, _| true) {
+            Some((ti, fi)) => {
+                let t = &mut types_mut(doc)[ti];
+                let mut f = t.fields[fi].clone();
+                if rng.chance(1, 2) {
+                    f.ty = PTy::named("Int", true);
+                    f.args.clear();
+                }
+                t.fields.push(f);
+                true
+            }
+            None => false,
+        },
+        "dup-implements" => {
+            let cands: Vec<usize> = types(doc).iter().enumerate().filter(|(_, t)| !t.implements.is_empty()).map(|x| x.0).collect();
+            if cands.is_empty() {
+                return false;
+            }
+            let k = *rng.pick(&cands);
+            let t = &mut types_mut(doc)[k];
+            let i = t.implements[rng.below(t.implements.len())].clone();
+            t.implements.push(i);
+            true
+        }
+        "dup-parameter" => match pick_field(doc, rng, &|_, f| !f.args.is_empty()) {
+            Some((ti, fi)) => {
+                let f = &mut types_mut(doc)[ti].fields[fi];
+                let mut a = f.args[rng.below(f.args.len())].clone();
+                if rng.chance(1, 2) {
+                    a.ty = PTy::named("String", true);
+                    a.default = None;
+                }
+                if rng.chance(1, 2) {
+                    f.args.push(a);
+                } else {
+                    f.args.insert(0, a);
+                }
+                true
+            }
+            None => false,
+        },
+        _ => false,
+    }
+}
+
+fn has_inheritance(doc: &Doc) -> bool {
+    types(doc).iter().any(|t| t.implements.iter().any(|i| type_of(doc, i).is_some_and(|d| !d.fields.is_empty())))
+}
+
 pub struct C19;
 
 impl Prop for C19 {
@@ -413,10 +1498,42 @@ impl Prop for C19 {
         "C19"
     }
     fn rule(&self) -> &'static str {
-        "TODO"
+        "requests are (schema-new <doc>): an abstract schema document rendered to SDL text for the real Schema::parse and interpreted directly by the Lean model. Valid stream: generated valid schemas (2-6 vertex types besides the root, interfaces with transitively closed implements incl. chains, properties of every built-in scalar and list shape up to depth 3, edges incl. self-edges and list edges, parameterised edges with/without defaults, inherited fields narrowed in nullability / edge target / widened parameter types, the directive prelude, custom directives, custom scalars, schema block first/middle/last, shuffled definitions). Malformed stream: 44 mutations (each documented rule violated, each panic trigger, duplicates of types/fields/implements/parameters) applied singly to several bases and in all ordered pairs. A case is distinct by its request text; it is non-trivial when the document has an interface with fields and an implementer (the inheritance rules are exercised) or carries a mutation. Oracle on the implementation: no panic; accept iff an independent checker of the documented rules (harness, not derived from the Rust code) finds no violated rule (silent on unsupported definitions and on duplicate parameter names, which the documented rules do not mention)."
     }
-    fn generate(&self, _tier: Tier, _rng: &mut Rng) -> Vec<Case> {
-        vec![]
+    fn generate(&self, tier: Tier, rng: &mut Rng) -> Vec<Case> {
+        let mut out = vec![];
+        let (n_valid, n_bases, n_pair_bases) = if tier == Tier::Quick { (150, 4, 1) } else { (2500, 30, 6) };
+        for _ in 0..n_valid {
+            let rich = rng.chance(1, 2);
+            let doc = gen_valid(rng, &GenOpts { rich });
+            let mut tags = vec!["valid"];
+            if has_inheritance(&doc) {
+                tags.push("nt:inheritance");
+            }
+            out.push(Case::new(Sexp::call("schema-new", vec![doc_to_sexp(&doc)]), &tags));
+        }
+        for _ in 0..n_bases {
+            let base = gen_valid(rng, &GenOpts { rich: true });
+            for m in MUTATIONS {
+                let mut doc = base.clone();
+                if mutate(&mut doc, m, rng) {
+                    let tag = format!("nt:mut:{m}");
+                    out.push(Case::new(Sexp::call("schema-new", vec![doc_to_sexp(&doc)]), &["mutant", &tag]));
+                }
+            }
+        }
+        for _ in 0..n_pair_bases {
+            let base = gen_valid(rng, &GenOpts { rich: true });
+            for m1 in MUTATIONS {
+                for m2 in MUTATIONS {
+                    let mut doc = base.clone();
+                    if mutate(&mut doc, m1, rng) && mutate(&mut doc, m2, rng) {
+                        out.push(Case::new(Sexp::call("schema-new", vec![doc_to_sexp(&doc)]), &["mutant-pair", "nt:mut-pair"]));
+                    }
+                }
+            }
+        }
+        out
     }
     fn eval(&self, request: &Sexp) -> Option<String> {
         let (h, args) = request.as_call()?;
@@ -425,8 +1542,59 @@ impl Prop for C19 {
             _ => None,
         }
     }
-    fn oracle(&self, _evaluated: &[Evaluated]) -> Vec<OracleFailure> {
-        vec![]
+    fn post_tags(&self, e: &Evaluated) -> Vec<String> {
+        let kind = if e.answer == "ok" {
+            "answer:ok"
+        } else if e.answer == "panic" {
+            "answer:panic"
+        } else {
+            "answer:err"
+        };
+        vec![kind.to_string()]
+    }
+    fn oracle(&self, evaluated: &[Evaluated]) -> Vec<OracleFailure> {
+        let mut fails = vec![];
+        for e in evaluated {
+            let Some((_, args)) = e.request.as_call() else { continue };
+            let Some(doc) = args.first().and_then(sexp_to_doc) else { continue };
+            if let Some(info) = &e.panic_info {
+                if undocumented(&doc) == Some("unsupported-definition") {
+                    continue; // `enum`/`union`/`input` are outside the supported constructs
+                }
+                fails.push(OracleFailure { key: panic_key(info), detail: info.chars().take(300).collect(), requests: vec![e.line.clone()] });
+                continue;
+            }
+            if undocumented(&doc).is_some() {
+                continue;
+            }
+            let violated = rule_violations(&doc);
+            let accepted = e.answer == "ok";
+            if accepted && !violated.is_empty() {
+                fails.push(OracleFailure {
+                    key: format!("accepts-invalid:{}", violated.iter().cloned().collect::<Vec<_>>().join("+")),
+                    detail: format!("accepted although the documented rules {violated:?} are violated"),
+                    requests: vec![e.line.clone()],
+                });
+            } else if !accepted && violated.is_empty() {
+                fails.push(OracleFailure {
+                    key: "rejects-valid".into(),
+                    detail: format!("rejected with {} although every documented rule holds", e.answer),
+                    requests: vec![e.line.clone()],
+                });
+            }
+        }
+        fails
+    }
+    fn extra_stats(&self, evaluated: &[Evaluated]) -> serde_json::Value {
+        let count = |t: &str| evaluated.iter().filter(|e| e.tags.iter().any(|x| x == t)).count();
+        serde_json::json!({
+            "valid_stream": count("valid"),
+            "single_mutants": count("mutant"),
+            "mutant_pairs": count("mutant-pair"),
+            "accepted": count("answer:ok"),
+            "rejected": count("answer:err"),
+            "panicked": count("answer:panic"),
+        })
     }
 }
 
@@ -461,4 +1629,4 @@ fn main() {
 }
 
 #[allow(dead_code)]
-fn _unused(_: BTreeMap<u8, u8>, _: BTreeSet<u8>, _: Arc<str>) {}
+fn _unused(_: BTreeMap<u8, u8>) {}
